@@ -17,6 +17,8 @@ trait Kind {
     fn key(i: &Self::Item) -> Self::Key;
     /// whether looking up `probe`'s key denotes `it` (key equality / whole-item equality)
     fn matches(it: &Self::Item, probe: &Self::Item) -> bool;
+    /// strict order on the comparison keys of two items (key order / whole-item order)
+    fn lt(a: &Self::Item, b: &Self::Item) -> bool;
 }
 
 struct Pairs;
@@ -37,6 +39,9 @@ impl Kind for Pairs {
     }
     fn matches(it: &Self::Item, probe: &Self::Item) -> bool {
         it.0 == probe.0
+    }
+    fn lt(a: &Self::Item, b: &Self::Item) -> bool {
+        a.0 < b.0
     }
 }
 
@@ -71,6 +76,9 @@ impl Kind for Wholes {
     }
     fn matches(it: &Whole, probe: &Whole) -> bool {
         *it == *probe
+    }
+    fn lt(a: &Whole, b: &Whole) -> bool {
+        a < b
     }
 }
 
@@ -109,7 +117,7 @@ where
     let s: &[K::Item] = &d.items;
     let mut i = 0;
     while i + 1 < phys {
-        if K::k(&s[i]) >= K::k(&s[i + 1]) {
+        if !K::lt(&s[i], &s[i + 1]) {
             return false;
         }
         i += 1;
@@ -290,14 +298,14 @@ where
     let m = model_of::<K>(&d);
     assert!(d.is_empty() == (m.len == 0));
     let mut n = 0;
-    let mut prev: Option<u8> = None;
+    let mut prev: Option<K::Item> = None;
     for it in d.iter() {
         assert!(n < m.len);
         assert!(Some(*it) == m.items[n]);
         if let Some(p) = prev {
-            assert!(p < K::k(it)); // ascending key order
+            assert!(K::lt(&p, it)); // ascending key order
         }
-        prev = Some(K::k(it));
+        prev = Some(*it);
         n += 1;
     }
     assert!(n == m.len);
@@ -316,9 +324,8 @@ where
     let k: u8 = kani::any();
     let v: Option<u8> = kani::any();
     let item = K::item(k, v);
-    let last_key = if m.len > 0 { Some(K::k(&m.items[m.len - 1].unwrap())) } else { None };
     // accepted pushes: erased item (no-op), or strictly greater than the current last item
-    kani::assume(v.is_none() || last_key.is_none() || last_key.unwrap() < k);
+    kani::assume(v.is_none() || m.len == 0 || K::lt(&m.items[m.len - 1].unwrap(), &item));
     d.push_back_or_panic(item);
     assert!(rep_ok::<K>(&d));
     let m2 = model_of::<K>(&d);
@@ -346,7 +353,7 @@ where
     let m = model_of::<K>(&d);
     let k: u8 = kani::any();
     let v: u8 = kani::any();
-    if m.len > 0 && K::k(&m.items[m.len - 1].unwrap()) >= k {
+    if m.len > 0 && !K::lt(&m.items[m.len - 1].unwrap(), &K::item(k, Some(v))) {
         // must panic: the marker after the call has to be unreachable (the engine accepts this harness
         // only if every failed check lies inside push_back_or_panic and the marker is not among them)
         d.push_back_or_panic(K::item(k, Some(v)));
